@@ -36,7 +36,7 @@ dev == [h34 |-> Dev_h34, h35 |-> Dev_h35]
 \* as it is: when a fix: commit repairs a class, its switch goes to FALSE here and its entry in known_findings to "fixed".
 \*   g2 C15:grammar.sep.bf   g6 C15:grammar.sep.hdr   g3 C15:grammar.hex-ws   g4 C15:grammar.ff-nul
 \*   g5 C15:grammar.empty-section   g7 C15:grammar.hdr-key   f1 C15:font.enc.base, C15:font.enc.cmapname
-GramAsIs     == [g2 |-> TRUE, g3 |-> TRUE, g4 |-> TRUE, g5 |-> TRUE, g6 |-> TRUE, g7 |-> TRUE, f1 |-> TRUE]
+GramAsIs     == [g2 |-> FALSE, g3 |-> FALSE, g4 |-> FALSE, g5 |-> FALSE, g6 |-> FALSE, g7 |-> FALSE, f1 |-> FALSE]     \* all repaired: 72f099a cca7710 c0049ff 2ef923d be2ac33 f484824
 GramRepaired == [g2 |-> FALSE, g3 |-> FALSE, g4 |-> FALSE, g5 |-> FALSE, g6 |-> FALSE, g7 |-> FALSE, f1 |-> FALSE]
 gdev == Dev_gram
 ASSUME Dev_h35 => Dev_h34             \* a value without a base can only be read from the range start
